@@ -23,7 +23,7 @@ def requests(cases, res):
     for (kind, n, g), r in zip(cases, res):
         if "exc" in r:
             req.append("closure_card %d %s" % (n, " ".join(g)))
-        elif n <= 8:
+        elif n <= 8 and kind != "dense":
             req.append("reduction %d %s %s" % (n, ",".join(r["gens"]), morph_txt(r["morphs"])))
         else:
             req.append("shapeacct %s %s" % (",".join(r["gens"]), morph_txt(r["morphs"])))
@@ -46,7 +46,7 @@ def judge(ck, cases, res, ans):
             ck.fail(None, "result of the reduction is not even well-formed (%s) on %s" % (a, g), {"n": n, "gens": g, "result": r}); continue
         flags = dict(kv.split("=") for kv in a.split())
         bad = [k for k, v in flags.items() if v != "1"]
-        if n > 8 and not span_necessary(r):
+        if (n > 8 or kind == "dense") and not span_necessary(r):
             bad.append("span (vertices and generators do not span the same F2-space)")
         if len(r["vertices"]) > 1 and len(set(g)) > len(r["vertices"]) or any(len(m["legs"]) > 2 for m in r["morphs"]):
             nt.add((n, tuple(sorted(set(g)))))
@@ -77,9 +77,9 @@ def main():
     ck.check_props()
     cases = G.exhaustive_small()
     if ck.quick:
-        cases += G.collections(ck.rng, 1500, 3, 5) + G.collections(ck.rng, 300, 6, 6) + G.collections(ck.rng, 300, 9, 16)
+        cases += G.collections(ck.rng, 1500, 3, 5) + G.collections(ck.rng, 300, 6, 6) + G.collections(ck.rng, 300, 9, 16) + G.dense_collections(ck.rng, 6000, 4, 6)
     else:
-        cases += G.collections(ck.rng, 12000, 3, 5) + G.collections(ck.rng, 3000, 6, 7) + G.collections(ck.rng, 150, 8, 8) + G.collections(ck.rng, 3000, 9, 16)
+        cases += G.collections(ck.rng, 12000, 3, 5) + G.collections(ck.rng, 3000, 6, 7) + G.collections(ck.rng, 150, 8, 8) + G.collections(ck.rng, 3000, 9, 16) + G.dense_collections(ck.rng, 30000, 4, 6)
     res = ck.impl("c02", [{"gens": g} for _, _, g in cases], per_case_s=120)
     ans = ck.oracle(requests(cases, res))
     nt = judge(ck, cases, res, ans)
@@ -107,7 +107,7 @@ def main():
     ck.cov["distinct_nontrivial"] = len(nt)
     ck.cov["rule"] = ("collections as in C01 plus 9..16 qubits; non-trivial = the reduction found a dependent or a graph with >=2 legs; "
                       "verdict by the Coq validator reduction_check (shape, accounting, dependents in closure, closure equality, one graph per component) "
-                      "for n<=8; for n>8 shape/accounting/components by the validator and the F2-span necessary condition")
+                      "for n<=8; for n>8 and for the dense stream (6..16 random strings on 4..6 qubits, long work queues) shape/accounting/components by the validator and the F2-span necessary condition")
     ck.cov["samples"] = [list(c) for c in cases[::max(1, len(cases) // 6)]][:6]
     ck.cov["distribution"] = {"by_n": byn}
     ck.cov["traces_validated_against_impl"] = len(cases)
